@@ -100,6 +100,7 @@ def run(pid, tier, seed, njobs=None, only_compute=False):
         "outcomes": outcomes, "distinct_histories": len(distinct), "rejected": len(v["rejected"]),
         "tlc_trace_validation": {"states": v["states"], "distinct": v["distinct"], "wall_s": round(v["wall"], 1)},
     }
+    lib.add_spec_coverage(cov, pid, tier)
     rc = verdict.finish()
     lib.write_evidence(pid, tier, seed, "model_checking", cov, time.time() - t0, len(verdict.violations),
                        ["hooks are placed at every shared access (a missing hook only coarsens exploration)",
